@@ -193,9 +193,25 @@ func (e *Engine) currentGroup() (grp *group) {
 	return
 }
 
+// hasRows returns true if at least one group has candidates to show:
+// when none has, there is no next or previous group to cycle to.
+func (e *Engine) hasRows() bool {
+	for _, g := range e.groups {
+		if len(g.rows) > 0 {
+			return true
+		}
+	}
+
+	return false
+}
+
 // cycleNextGroup - Finds either the first non-empty group,
 // or the next non-empty group after the current one.
 func (e *Engine) cycleNextGroup() {
+	if !e.hasRows() {
+		return
+	}
+
 	for pos, g := range e.groups {
 		if g.isCurrent {
 			g.isCurrent = false
@@ -223,6 +239,10 @@ func (e *Engine) cycleNextGroup() {
 
 // cyclePreviousGroup - Same as cycleNextGroup but reverse.
 func (e *Engine) cyclePreviousGroup() {
+	if !e.hasRows() {
+		return
+	}
+
 	for pos, g := range e.groups {
 		if g.isCurrent {
 			g.isCurrent = false
